@@ -240,6 +240,12 @@ def run(prop, tier, seed, rep):
     import ui_checks
     ui_checks.lifecycle_model(prop, tier, rep)
     life = [x for e in events for x in e.pop("_life", [])]
+    # sessions around server closes with an operator at the keyboard (keys pressed during an outage must not end a client
+    # that was told to keep reconnecting)
+    lj = [j for j in ui_checks.life_jobs(rng, tier) if j["retry"]]
+    with cf.ThreadPoolExecutor(max_workers=6) as ex:
+        for r in ex.map(lambda j: ui_checks.life_session(bindir, random.Random(j["seed"]), j["tag"], j["retry"], j["nconn"], j["last"], j["quit_key"]), lj):
+            life += r
     if life:
         ui_checks.judge_sessions(prop, rep, life, prop + "-session")
     # composition (beyond the listed properties): what 1090 prints after a line is the library's rendering of that frame.
